@@ -374,6 +374,11 @@ class VG:
         changed = [k for k, t in self.fields.items() if before.get(k, ('in', k)) != t]
         if changed:
             self.unknowns.append(('closure-writes-state:%s' % ','.join(sorted(changed)[:3]), loc(node) if node else '?'))
+        # ... and to captured locals (bindings that existed before the closure ran)
+        loc_before = saved[3]
+        loc_now = self.frames[-1].locals
+        if any(k in loc_now and loc_now[k] != v for k, v in loc_before.items()):
+            self.unknowns.append(('closure-writes-captured-local', loc(node) if node else '?'))
         self.restore(saved)
 
     def restore(self, saved):
@@ -510,6 +515,18 @@ class VG:
             return self.note_unknown('expr-kind-' + str(k), e)
         return m(e, fr)
 
+    const_depth = 0
+
+    def crate_consts(self):
+        c = getattr(self.F, '_const_bodies', None)
+        if c is None:
+            c = {}
+            for it in self.F.raw.get('consts', []):
+                c[it['def']] = it['body']
+                c[canon(it['def'])] = it['body']
+            self.F._const_bodies = c
+        return c
+
     def v_lit(self, e, fr):
         if e['lit'] == 'int':
             return lit(int(e['v']), 'i')
@@ -534,6 +551,20 @@ class VG:
         c = e.get('callee')
         short = name.split('::')[-1]
         if e.get('defkind', '').startswith('AssocConst') or e.get('defkind', '').startswith('Const'):
+            # a constant of this crate: fold its value expression (literals, arithmetic on literals, other constants)
+            body = self.crate_consts().get(e['def']) or self.crate_consts().get(name)
+            if body is not None and self.const_depth < 4:
+                self.const_depth += 1
+                try:
+                    nu = len(self.unknowns)
+                    v_ = self.value(body, Frame(None, '', None))
+                    if len(self.unknowns) == nu and isinstance(v_, tuple) and v_ and v_[0] == 'lit':
+                        return v_
+                    del self.unknowns[nu:]
+                except Exception:
+                    pass
+                finally:
+                    self.const_depth -= 1
             return ('const', name)
         if name == 'std::cmp::Ordering::Equal':
             return ('const', name)
@@ -1173,6 +1204,16 @@ class VG:
             prefix = ''
             argv = [self.value_noderef(a, fr) for a in args]
         argv = [a if (isinstance(a, tuple) and a and a[0] in ('ref', 'selfref', 'optref', 'closure')) else a for a in argv]
+        # a mutable borrow of a caller's LOCAL handed to the callee: the callee's writes through it are not modelled (locals are
+        # per-frame), so the local's value after the call is unknown -- fail closed instead of keeping the old value
+        for a_node in (args[1:] if has_self else args):
+            a0 = a_node
+            while a0.get('k') in ('block',) and not a0.get('stmts') and 'expr' in a0:
+                a0 = a0['expr']
+            if a0.get('k') == 'addr' and a0.get('mut'):
+                pl = self.place_of(a0['e'], fr)
+                if pl is not None and pl[0] == 'local':
+                    fr.locals[pl[1]] = self.note_unknown('mut-borrow-of-local-passed-to-helper', a_node)
         self.depth += 1
         nf = self.push_frame(target, prefix, argv)
         base_pc = list(self.pc)
@@ -1242,6 +1283,11 @@ class VG:
                     self.event('fdomain', ('unit', args[0], short + ' argument'), e)
                 elif short == 'ln_1p':
                     self.event('fdomain', ('positive', op('add', args[0], ONE), 'ln_1p argument + 1'), e)
+                if short == 'mul_add' and len(args) == 3:
+                    # fused multiply-add: the same real-arithmetic expression a·b + c (one rounding instead of two)
+                    return op('add', op('mul', args[0], args[1]), args[2])
+                if short == 'recip' and len(args) == 1:
+                    return op('div', ONE, args[0])
                 return op(short, *args)
             if short in ('to_f64', 'to_f32'):
                 return some(op(short, d(argv[0])))
@@ -1492,7 +1538,7 @@ class VG:
             self.bind_pat(p, a, fr)
         # a `return` inside the closure leaves the closure, not the enclosing function: collect such exits separately and
         # merge them with the fall-through value (phi chain over their path conditions, as for an inlined function)
-        has_ret = any(n.get('k') == 'ret' for n in walk(node['body']))
+        has_ret = any(n.get('k') in ('ret', 'try') for n in walk(node['body']))
         if not has_ret:
             return self.block_value(node['body'], fr) if node['body'].get('k') == 'block' else self.value(node['body'], fr)
         saved_exits = fr.exits
@@ -1661,12 +1707,22 @@ class VG:
             cl = argv[1]
             natural = False
             if isinstance(cl, tuple) and cl[0] == 'closure':
-                node = cl[2]
-                body = node['body']
-                txt = pp(body)
-                ps = [p.get('name') for p in node['params']]
-                if len(ps) == 2 and all(ps) and ('%s.partial_cmp(%s)' % (ps[0], ps[1])) in txt.replace('&', ''):
-                    natural = True
+                # the comparator is evaluated on two symbols: it is the natural order iff the result is exactly
+                # partial_cmp(a, b) (after unwrap / expect / unwrap_or(Equal) on the always-Some result)
+                A_, B_ = ('cmp_lhs',), ('cmp_rhs',)
+                saved_c = self.save()
+                ev_before = len(self.events)
+                unk_before = len(self.unknowns)
+                try:
+                    rc = self.apply_closure(cl, [A_, B_], fr)
+                except Exception:
+                    rc = None
+                del self.events[ev_before:]
+                del self.unknowns[unk_before:]
+                self.restore(saved_c)
+                if isinstance(rc, tuple) and rc and rc[0] == 'ref':
+                    rc = self.deref(rc)
+                natural = rc == op('partial_cmp', A_, B_)
             if isinstance(cl, tuple) and cl[0] == 'closure':
                 for x in walk(cl[2]['body']):
                     if x.get('k') == 'call' and callee_name(x) in ('std::option::Option::unwrap', 'std::option::Option::expect'):
